@@ -212,6 +212,26 @@ impl World {
         }
     }
 
+    /// Builds a block with `txs` on `parent` (timestamp +600 s) without delivering it.
+    pub fn make_block(&self, parent: &H32, txs: Vec<bitcoin::Transaction>) -> bitcoin::Block {
+        let ph = self.blocks.get(parent).expect("known parent").header;
+        match self.cfg.net {
+            Network::Regtest => factory::regtest_block(&ph, ph.time + 600, txs),
+            _ => factory::unmined_block(&ph, ph.time + 600, 0x1d00ffff, txs),
+        }
+    }
+
+    /// Builds and delivers (direct channel) a block; panics if it is not accepted.
+    pub fn extend(&mut self, parent: &H32, txs: Vec<bitcoin::Transaction>, diff: u128) -> H32 {
+        let b = self.make_block(parent, txs);
+        let ok = match self.cfg.net {
+            Network::Regtest => self.deliver_direct(&b, Some(diff)),
+            _ => self.deliver_push(&b, Some(diff)),
+        };
+        assert_eq!(ok, Ok(true), "harness block must be accepted");
+        *self.ids.last().unwrap()
+    }
+
     pub fn record(&mut self, block: &bitcoin::Block, diff: u128) {
         let h = self.refm.add_block(block, diff);
         self.ids.push(h);
@@ -347,6 +367,29 @@ impl World {
         guarded(|| ic_btc_canister::get_balance_query(req))
     }
 
+    /// The update variants (they charge cycles on the mock balance).
+    pub fn utxos_update(
+        &self,
+        address: &str,
+        filter: Option<UtxosFilterInRequest>,
+    ) -> Result<Result<GetUtxosResponse, GetUtxosError>, String> {
+        let req = GetUtxosRequest {
+            address: address.to_string(),
+            network: net_req(self.cfg.net),
+            filter,
+        };
+        guarded(|| ic_btc_canister::get_utxos(req))
+    }
+
+    pub fn balance_update(&self, address: &str, min_conf: Option<u32>) -> Result<Result<u64, GetBalanceError>, String> {
+        let req = GetBalanceRequest {
+            address: address.to_string(),
+            network: net_req(self.cfg.net),
+            min_confirmations: min_conf,
+        };
+        guarded(|| ic_btc_canister::get_balance(req))
+    }
+
     pub fn headers(
         &self,
         start: u32,
@@ -478,4 +521,72 @@ fn mask_metrics(v: &mut ciborium::Value) {
     if let V::Map(entries) = v {
         entries.retain(|(k, _)| matches!(k, V::Text(n) if n == "send_transaction_count" || n == "cycles_burnt"));
     }
+}
+
+/// Logical dump (contents, not B-tree layout) of everything `Serialize` skips: the stable
+/// maps, the block cache and the per-block metrics.
+pub fn logical_dump() -> Vec<u8> {
+    let mut out: Vec<u8> = vec![];
+    fn put(out: &mut Vec<u8>, b: &[u8]) {
+        out.extend((b.len() as u32).to_le_bytes());
+        out.extend(b);
+    }
+    with_state(|s| {
+        for k in s.utxos.verif_address_utxos() {
+            put(&mut out, &k);
+        }
+        out.push(0xA1);
+        for (a, b) in s.utxos.verif_balances() {
+            put(&mut out, a.as_bytes());
+            out.extend(b.to_le_bytes());
+        }
+        out.push(0xA2);
+        for e in s.utxos.utxos.small_utxos.iter() {
+            put(&mut out, e.key().as_slice());
+            put(&mut out, e.value().as_slice());
+        }
+        out.push(0xA3);
+        for e in s.utxos.utxos.medium_utxos.iter() {
+            put(&mut out, e.key().as_slice());
+            put(&mut out, e.value().as_slice());
+        }
+        out.push(0xA4);
+        for e in s.stable_block_headers.block_headers.iter() {
+            put(&mut out, e.key().as_bytes());
+            put(&mut out, e.value().as_slice());
+        }
+        out.push(0xA5);
+        for e in s.stable_block_headers.block_heights.iter() {
+            out.extend(e.key().to_le_bytes());
+            put(&mut out, e.value().as_bytes());
+        }
+        out.push(0xA6);
+        for (h, bytes) in s.unstable_blocks.verif_block_cache() {
+            put(&mut out, h.as_bytes());
+            put(&mut out, &bytes);
+        }
+        out.push(0xA7);
+        for (h, fees, delta) in s.unstable_blocks.verif_block_metrics() {
+            put(&mut out, h.as_bytes());
+            match fees {
+                None => out.push(0),
+                Some(f) => {
+                    out.push(1);
+                    for x in f {
+                        out.extend(x.to_le_bytes());
+                    }
+                }
+            }
+            out.extend(delta.to_le_bytes());
+        }
+    });
+    out
+}
+
+/// 128-bit fingerprint of the complete logical canister state.
+pub fn full_fingerprint() -> u128 {
+    let mut b = state_bytes(true);
+    b.extend(logical_dump());
+    let h = crate::util::sha256(&b);
+    u128::from_le_bytes(h[..16].try_into().unwrap())
 }
